@@ -23,13 +23,15 @@ pub struct Cfg {
     pub max_m: u64,
     pub max_src: u64,
     pub max_lines: u64,
+    /// repeated method names within a class and methods without `line` (well-formed stream)
+    pub overloads: bool,
 }
 impl Cfg {
     pub fn full() -> Cfg {
-        Cfg { max_pk: 3, max_cls: 4, max_m: 4, max_src: 3, max_lines: 8 }
+        Cfg { max_pk: 3, max_cls: 4, max_m: 4, max_src: 3, max_lines: 8, overloads: true }
     }
     pub fn small() -> Cfg {
-        Cfg { max_pk: 2, max_cls: 2, max_m: 2, max_src: 2, max_lines: 4 }
+        Cfg { max_pk: 2, max_cls: 2, max_m: 2, max_src: 2, max_lines: 4, overloads: false }
     }
 }
 
@@ -307,7 +309,7 @@ fn gen_counter(g: &mut G, ty: &str, missed: u32, covered: u32) -> Counter {
     Counter { ty: ty.to_string(), missed, covered, shell: sh }
 }
 
-fn gen_method(g: &mut G, name: String) -> Method {
+fn gen_method(g: &mut G, name: String, no_line_ok: bool) -> Method {
     let line = match g.rng.below(20) {
         0 => 0,
         1 => u32::MAX,
@@ -361,9 +363,16 @@ fn gen_method(g: &mut G, name: String) -> Method {
     }
     let mut attrs = vec![("name", AV::Text(name.clone()))];
     if g.rng.chance(9, 10) {
-        attrs.push(("desc", AV::Text(g.rng.pick(&["()V", "([Ljava/lang/String;)V", "(I)Z"]).to_string())));
+        attrs.push(("desc", AV::Text(g.rng.pick(&["()V", "([Ljava/lang/String;)V", "(I)Z", "(I)V", "(Ljava/lang/Object;)Z"]).to_string())));
     }
-    attrs.push(("line", AV::Num(line as u64, true)));
+    // report.dtd: `line` is #IMPLIED (JaCoCo omits it for classes without debug information)
+    let line = if no_line_ok && g.rng.chance(1, 150) {
+        g.f("method.no_line_attribute");
+        None
+    } else {
+        attrs.push(("line", AV::Num(line as u64, true)));
+        Some(line)
+    };
     let shell = mk_shell(g, "method", attrs, body.is_empty());
     Method { name, line, shell, body }
 }
@@ -373,9 +382,18 @@ fn gen_class(g: &mut G, fq: String, sfn: Option<String>, cfg: &Cfg) -> Class {
     let mut names: Vec<&str> = METHOD_NAMES.to_vec();
     g.rng.shuffle(&mut names);
     let mut body: Vec<CItem> = vec![];
+    let mut used: Vec<String> = vec![];
     for k in 0..nm as usize {
         body.extend(gap(g).into_iter().map(CItem::Junk));
-        body.push(CItem::Method(gen_method(g, names[k].to_string())));
+        // overloads: every real Java class has them (several <init>, equals(Object)/equals(T), …)
+        let name = if !used.is_empty() && cfg.overloads && g.rng.chance(1, 4) {
+            g.f("method.overloaded_name");
+            used[g.rng.below(used.len() as u64) as usize].clone()
+        } else {
+            names[k].to_string()
+        };
+        used.push(name.clone());
+        body.push(CItem::Method(gen_method(g, name, cfg.overloads)));
         if g.rng.chance(1, 25) {
             // a class-level counter between the methods
             body.push(CItem::Junk(junk_elem(g, Level::Class)));
